@@ -4,44 +4,591 @@
 -/
 import Saltpack.Model.Basex
 import Saltpack.Proofs.BasexWF
+import Saltpack.Proofs.Digits
+import Saltpack.Proofs.BasexLen
 
 namespace Saltpack.Proofs
 open Saltpack Saltpack.Basex
 
+/-! ### alphabet -/
+
+theorem digit?_char {e : Enc} (he : e.WF) (d : Nat) (hd : d < e.base) :
+    e.digit? (e.char d) = some d := by
+  have hd' : d < e.alphabet.length := by rw [he.alpha_len]; exact hd
+  unfold Enc.digit? Enc.char
+  rw [List.getD_eq_getElem?_getD, List.getElem?_eq_getElem hd', Option.getD_some]
+  simp only [he.alpha_nodup.idxOf_getElem d hd', hd', if_true]
+
+theorem char_of_digit? {e : Enc} (c : UInt8) (d : Nat) (h : e.digit? c = some d) :
+    d < e.alphabet.length ∧ e.char d = c := by
+  unfold Enc.digit? at h
+  simp only at h
+  split at h
+  · rename_i hlt
+    injection h with h
+    subst h
+    refine ⟨hlt, ?_⟩
+    unfold Enc.char
+    rw [List.getD_eq_getElem?_getD, List.getElem?_eq_getElem hlt, Option.getD_some]
+    exact List.getElem_idxOf hlt
+  · exact absurd h (by simp)
+
+/-! ### encoder -/
+
+theorem encodeBlockDigits_length (e : Enc) (bs : Bytes) :
+    (encodeBlockDigits e bs).length = e.encLen bs.length := by
+  unfold encodeBlockDigits
+  exact digitsOfNat_length _ _ _
+
 theorem encodeBlock_length (e : Enc) (bs : Bytes) :
     (encodeBlock e bs).length = e.encLen bs.length := by
-  sorry
+  unfold encodeBlock
+  rw [List.length_map, encodeBlockDigits_length]
 
 theorem encodeBlock_value (e : Enc) (he : e.WF) (bs : Bytes) (h : bs.length ≤ e.blockLen) :
     natOfDigits e.base (encodeBlockDigits e bs) = natOfBytes bs ∧
     (∀ d ∈ encodeBlockDigits e bs, d < e.base) := by
-  sorry
+  constructor
+  · unfold encodeBlockDigits
+    apply natOfDigits_digitsOfNat_of_lt
+    exact Nat.lt_of_lt_of_le (natOfBytes_lt bs) (encLen_spec he _ h).1
+  · unfold encodeBlockDigits
+    exact digitsOfNat_lt _ (base_pos he) _ _
+
+theorem encode_nil (e : Enc) : encode e [] = [] := by
+  unfold encode
+  rw [chunks_nil]
+  rfl
+
+theorem encode_short (e : Enc) (bs : Bytes) (h0 : bs ≠ []) (h : bs.length ≤ e.blockLen) :
+    encode e bs = encodeBlock e bs := by
+  unfold encode
+  rw [chunks_short _ _ h0 h]
+  simp
+
+theorem encode_append (e : Enc) (he : e.WF) (a b : Bytes) (h : a.length = e.blockLen) :
+    encode e (a ++ b) = encodeBlock e a ++ encode e b := by
+  unfold encode
+  rw [chunks_append _ he.block_pos a b h, List.flatMap_cons]
+
+theorem encode_length_aux (e : Enc) (he : e.WF) :
+    ∀ (k : Nat) (bs : Bytes), bs.length ≤ k → (encode e bs).length = e.encLen bs.length := by
+  intro k
+  induction k with
+  | zero =>
+    intro bs h
+    have : bs = [] := List.length_eq_zero_iff.mp (by omega)
+    subst this
+    rw [encode_nil, List.length_nil, encLen_zero he]
+  | succ k ih =>
+    intro bs h
+    by_cases h0 : bs = []
+    · subst h0
+      rw [encode_nil, List.length_nil, encLen_zero he]
+    · by_cases hs : bs.length ≤ e.blockLen
+      · rw [encode_short e bs h0 hs, encodeBlock_length]
+      · have hB := he.block_pos
+        have hlen : (bs.drop e.blockLen).length = bs.length - e.blockLen := List.length_drop
+        have htake : (bs.take e.blockLen).length = e.blockLen := by
+          rw [List.length_take]; omega
+        have hsplit : bs = bs.take e.blockLen ++ bs.drop e.blockLen :=
+          (List.take_append_drop _ _).symm
+        conv => lhs; rw [hsplit]
+        rw [encode_append e he _ _ htake, List.length_append, encodeBlock_length, htake,
+          encLen_full he, ih _ (by omega), hlen]
+        have hb : bs.length = (bs.length - e.blockLen) + e.blockLen := by omega
+        conv => rhs; rw [hb]
+        unfold Enc.encLen
+        rw [Nat.add_div_right _ hB, Nat.add_mod_right, Nat.add_mul, Nat.one_mul]
+        omega
 
 theorem encode_length (e : Enc) (he : e.WF) (bs : Bytes) :
-    (encode e bs).length = e.encLen bs.length := by
-  sorry
+    (encode e bs).length = e.encLen bs.length :=
+  encode_length_aux e he bs.length bs (Nat.le_refl _)
 
 theorem len_helpers_exact (e : Enc) (he : e.WF) :
     (∀ r, r ≤ e.blockLen → 256 ^ r ≤ e.base ^ (e.encLen r) ∧
         (e.encLen r = 0 ∨ e.base ^ (e.encLen r - 1) < 256 ^ r)) ∧
-    (∀ c, c ≤ e.charBlockLen → 256 ^ (e.decLen c) ≤ e.base ^ c ∧ e.base ^ c < 256 ^ (e.decLen c + 1)) := by
-  sorry
+    (∀ c, c ≤ e.charBlockLen → 256 ^ (e.decLen c) ≤ e.base ^ c ∧ e.base ^ c < 256 ^ (e.decLen c + 1)) :=
+  ⟨encLen_spec he, decLen_spec he⟩
+
+/-! ### scanning -/
+
+theorem scanBlock_zero (e : Enc) (s : List UInt8) (pos : Nat) :
+    scanBlock e 0 s pos = .ok ([], s) := by
+  cases s with
+  | nil => rw [scanBlock]
+  | cons c cs => rw [scanBlock]; simp
+
+/-- scanning a run of alphabet characters -/
+theorem scan_enc {e : Enc} (he : e.WF) :
+    ∀ (ds : List Nat) (need pos : Nat) (tail : List UInt8), (∀ d ∈ ds, d < e.base) →
+      ds.length ≤ need → (ds.length = need ∨ tail = []) →
+      scanBlock e need (ds.map e.char ++ tail) pos = .ok (ds, tail) := by
+  intro ds
+  induction ds with
+  | nil =>
+    intro need pos tail _ _ h
+    rcases h with h | h
+    · simp only [List.length_nil] at h
+      subst h
+      exact scanBlock_zero e _ _
+    · subst h
+      simp only [List.map_nil, List.append_nil]
+      rw [scanBlock]
+  | cons d ds ih =>
+    intro need pos tail hlt hle h
+    rw [List.length_cons] at hle h
+    cases need with
+    | zero => omega
+    | succ n =>
+      simp only [List.map_cons, List.cons_append]
+      rw [scanBlock, digit?_char he d (hlt d (by simp))]
+      simp only
+      by_cases hn : n = 0
+      · subst hn
+        have : ds = [] := List.length_eq_zero_iff.mp (by omega)
+        subst this
+        simp
+      · rw [if_neg hn, ih n (pos + 1) tail (fun x hx => hlt x (by simp [hx]))
+          (by omega) (by rcases h with h | h; left; omega; right; exact h)]
+
+/-- what a successful strict scan tells about its input -/
+theorem scan_strict {e : Enc} (he : e.WF) (hs : e.skip = []) :
+    ∀ (s : List UInt8) (need pos : Nat) (ds : List Nat) (rest : List UInt8),
+      scanBlock e need s pos = .ok (ds, rest) →
+      s = ds.map e.char ++ rest ∧ (∀ d ∈ ds, d < e.base) ∧ ds.length ≤ need ∧
+      (ds.length = need ∨ rest = []) ∧ (0 < need → s ≠ [] → ds ≠ []) := by
+  intro s
+  induction s with
+  | nil =>
+    intro need pos ds rest h
+    rw [scanBlock] at h
+    injection h with h
+    injection h with h1 h2
+    subst h1; subst h2
+    simp
+  | cons c cs ih =>
+    intro need pos ds rest h
+    cases need with
+    | zero =>
+      rw [scanBlock_zero] at h
+      injection h with h
+      injection h with h1 h2
+      subst h1; subst h2
+      simp
+    | succ n =>
+      rw [scanBlock] at h
+      cases hdig : e.digit? c with
+      | none =>
+        rw [hdig] at h
+        have : e.isSkip c = false := by unfold Enc.isSkip; rw [hs]; rfl
+        simp [this] at h
+      | some d =>
+        rw [hdig] at h
+        simp only at h
+        obtain ⟨hd1, hd2⟩ := char_of_digit? c d hdig
+        rw [he.alpha_len] at hd1
+        by_cases hn : n = 0
+        · subst hn
+          simp only [if_true] at h
+          injection h with h
+          injection h with h1 h2
+          subst h1; subst h2
+          simp [hd1, hd2]
+        · rw [if_neg hn] at h
+          cases hrec : scanBlock e n cs (pos + 1) with
+          | error x => rw [hrec] at h; simp at h
+          | ok p =>
+            obtain ⟨ds', rest'⟩ := p
+            rw [hrec] at h
+            simp only at h
+            injection h with h
+            injection h with h1 h2
+            subst h1; subst h2
+            obtain ⟨i1, i2, i3, i4, _⟩ := ih n (pos + 1) ds' rest' hrec
+            refine ⟨?_, ?_, ?_, ?_, ?_⟩
+            · simp [hd2, ← i1]
+            · intro x hx
+              rcases List.mem_cons.mp hx with hx | hx
+              · subst hx; exact hd1
+              · exact i2 x hx
+            · simp; omega
+            · rcases i4 with i4 | i4
+              · left; simp; omega
+              · right; exact i4
+            · intro _ _; simp
+
+/-! ### one block -/
+
+theorem decodeBlock_encodeBlock {e : Enc} (he : e.WF) (bs : Bytes) (h0 : 0 < bs.length)
+    (h : bs.length ≤ e.blockLen) : decodeBlockDigits e (encodeBlockDigits e bs) = .ok bs := by
+  unfold decodeBlockDigits
+  rw [encodeBlockDigits_length, validLen_encLen he _ h0 h, decLen_encLen he _ h0 h,
+    (encodeBlock_value e he bs h).1]
+  have hlt := natOfBytes_lt bs
+  simp only [Bool.not_true, Bool.false_eq_true, if_false]
+  rw [if_neg (by omega), bytesOfNat_natOfBytes]
+
+theorem decodeBlock_nil {e : Enc} (he : e.WF) : decodeBlockDigits e [] = .ok [] := by
+  unfold decodeBlockDigits
+  simp only [List.length_nil, validLen_zero he, decLen_zero he, natOfDigits_nil]
+  rfl
+
+/-- an accepted block is the encoding of its result -/
+theorem decodeBlock_canon {e : Enc} (he : e.WF) (ds : List Nat) (b : Bytes)
+    (hlt : ∀ d ∈ ds, d < e.base) (h0 : 0 < ds.length) (hN : ds.length ≤ e.charBlockLen)
+    (h : decodeBlockDigits e ds = .ok b) :
+    encodeBlockDigits e b = ds ∧ b.length = e.decLen ds.length ∧ 0 < b.length ∧
+      b.length ≤ e.blockLen := by
+  unfold decodeBlockDigits at h
+  cases hv : e.validLen ds.length with
+  | false => rw [hv] at h; simp at h
+  | true =>
+    rw [hv] at h
+    simp only [Bool.not_true, Bool.false_eq_true, if_false] at h
+    split at h
+    · simp at h
+    · rename_i hfit
+      injection h with h
+      obtain ⟨g1, g2⟩ := encLen_decLen he _ h0 hN hv
+      have hlen : b.length = e.decLen ds.length := by rw [← h, bytesOfNat_length]
+      refine ⟨?_, hlen, by omega, by rw [hlen]; exact decLen_le he _ hN⟩
+      unfold encodeBlockDigits
+      rw [hlen, g1, ← h, natOfBytes_bytesOfNat, Nat.mod_eq_of_lt (by omega)]
+      exact digitsOfNat_natOfDigits _ ds hlt
+
+/-! ### the block loop -/
+
+theorem decodeAux_nil (e : Enc) (fuel pos : Nat) : decodeAux e fuel [] pos = .ok [] := by
+  cases fuel with
+  | zero => rw [decodeAux]
+  | succ f => rw [decodeAux]; simp
+
+theorem decodeAux_step (e : Enc) (fuel pos : Nat) (s : List UInt8) (ds : List Nat)
+    (rest : List UInt8) (h0 : s ≠ []) (hscan : scanBlock e e.charBlockLen s pos = .ok (ds, rest)) :
+    decodeAux e (fuel + 1) s pos =
+      match decodeBlockDigits e ds with
+      | .error x => .error x
+      | .ok bs =>
+        match decodeAux e fuel rest (pos + (s.length - rest.length)) with
+        | .error x => .error x
+        | .ok more => .ok (bs ++ more) := by
+  rw [decodeAux, hscan]
+  have : s.isEmpty = false := by
+    cases s with
+    | nil => exact absurd rfl h0
+    | cons _ _ => rfl
+  simp only [this, Bool.false_eq_true, if_false]
+  rfl
+
+theorem decode_encode_aux (e : Enc) (he : e.WF) :
+    ∀ (k : Nat) (bs : Bytes) (fuel pos : Nat), bs.length ≤ k → (encode e bs).length < fuel →
+      decodeAux e fuel (encode e bs) pos = .ok bs := by
+  intro k
+  induction k with
+  | zero =>
+    intro bs fuel pos h _
+    have : bs = [] := List.length_eq_zero_iff.mp (by omega)
+    subst this
+    rw [encode_nil, decodeAux_nil]
+  | succ k ih =>
+    intro bs fuel pos h hf
+    by_cases h0 : bs = []
+    · subst h0
+      rw [encode_nil, decodeAux_nil]
+    · have hpos : 0 < bs.length := List.length_pos_iff.mpr h0
+      cases fuel with
+      | zero => omega
+      | succ f =>
+        by_cases hs : bs.length ≤ e.blockLen
+        · rw [encode_short e bs h0 hs]
+          have hv := encodeBlock_value e he bs hs
+          have hl := encodeBlockDigits_length e bs
+          have hp := encLen_pos he _ hpos hs
+          have hle := encLen_le he _ hs
+          have hne : encodeBlock e bs ≠ [] := by
+            intro hnil
+            have := encodeBlock_length e bs
+            rw [hnil] at this
+            simp at this
+            omega
+          have hscan : scanBlock e e.charBlockLen (encodeBlock e bs) pos =
+              .ok (encodeBlockDigits e bs, []) := by
+            have := scan_enc he (encodeBlockDigits e bs) e.charBlockLen pos [] hv.2
+              (by omega) (Or.inr rfl)
+            rw [List.append_nil] at this
+            exact this
+          rw [decodeAux_step e f pos _ _ _ hne hscan, decodeBlock_encodeBlock he bs hpos hs]
+          simp only [decodeAux_nil, List.append_nil]
+        · have hB := he.block_pos
+          have hlen : (bs.drop e.blockLen).length = bs.length - e.blockLen := List.length_drop
+          have htake : (bs.take e.blockLen).length = e.blockLen := by
+            rw [List.length_take]; omega
+          have hsplit : bs = bs.take e.blockLen ++ bs.drop e.blockLen :=
+            (List.take_append_drop _ _).symm
+          have henc := encode_append e he _ (bs.drop e.blockLen) htake
+          rw [← hsplit] at henc
+          rw [henc] at hf ⊢
+          have hv := encodeBlock_value e he (bs.take e.blockLen) (by omega)
+          have hl := encodeBlockDigits_length e (bs.take e.blockLen)
+          rw [htake, encLen_full he] at hl
+          have hN := he.cblock_pos
+          have hne : encodeBlock e (bs.take e.blockLen) ++ encode e (bs.drop e.blockLen) ≠ [] := by
+            intro hnil
+            have h1 := encodeBlock_length e (bs.take e.blockLen)
+            rw [htake, encLen_full he] at h1
+            have := congrArg List.length hnil
+            rw [List.length_append, h1] at this
+            simp at this
+            omega
+          have hscan : scanBlock e e.charBlockLen
+              (encodeBlock e (bs.take e.blockLen) ++ encode e (bs.drop e.blockLen)) pos =
+              .ok (encodeBlockDigits e (bs.take e.blockLen), encode e (bs.drop e.blockLen)) :=
+            scan_enc he _ e.charBlockLen pos _ hv.2 (by omega) (Or.inl hl)
+          have hfl : (encode e (bs.drop e.blockLen)).length < f := by
+            rw [List.length_append, encodeBlock_length, htake, encLen_full he] at hf
+            omega
+          rw [decodeAux_step e f pos _ _ _ hne hscan,
+            decodeBlock_encodeBlock he _ (by omega) (by omega)]
+          simp only
+          rw [ih (bs.drop e.blockLen) f _ (by omega) hfl]
+          simp only
+          rw [List.take_append_drop]
 
 theorem decode_encode (e : Enc) (he : e.WF) (bs : Bytes) :
     decode e (encode e bs) = .ok bs := by
-  sorry
+  unfold decode
+  exact decode_encode_aux e he bs.length bs _ 0 (Nat.le_refl _) (Nat.lt_succ_self _)
+
+theorem decode_canonical_aux (e : Enc) (he : e.WF) (hs : e.skip = []) :
+    ∀ (fuel : Nat) (s : List UInt8) (pos : Nat) (bs : Bytes), s.length < fuel →
+      decodeAux e fuel s pos = .ok bs →
+      encode e bs = s ∧ ∀ c ∈ s, (e.digit? c).isSome = true := by
+  intro fuel
+  induction fuel with
+  | zero => intro s pos bs h; omega
+  | succ f ih =>
+    intro s pos bs hf h
+    by_cases h0 : s = []
+    · subst h0
+      rw [decodeAux_nil] at h
+      injection h with h
+      subst h
+      exact ⟨encode_nil e, by simp⟩
+    · cases hscan : scanBlock e e.charBlockLen s pos with
+      | error x =>
+        rw [decodeAux, hscan] at h
+        have : s.isEmpty = false := by
+          cases s with
+          | nil => exact absurd rfl h0
+          | cons _ _ => rfl
+        simp [this] at h
+      | ok p =>
+        obtain ⟨ds, rest⟩ := p
+        rw [decodeAux_step e f pos s ds rest h0 hscan] at h
+        obtain ⟨i1, i2, i3, i4, i5⟩ := scan_strict he hs s _ pos ds rest hscan
+        have hdsne : ds ≠ [] := i5 he.cblock_pos h0
+        have hdspos : 0 < ds.length := List.length_pos_iff.mpr hdsne
+        have hslen : s.length = ds.length + rest.length := by
+          have := congrArg List.length i1
+          simpa using this
+        cases hdec : decodeBlockDigits e ds with
+        | error x => rw [hdec] at h; simp at h
+        | ok b1 =>
+          rw [hdec] at h
+          simp only at h
+          cases hrec : decodeAux e f rest (pos + (s.length - rest.length)) with
+          | error x => rw [hrec] at h; simp at h
+          | ok more =>
+            rw [hrec] at h
+            simp only at h
+            injection h with h
+            subst h
+            obtain ⟨j1, j2⟩ := ih rest _ more (by omega) hrec
+            obtain ⟨c1, c2, c3, c4⟩ := decodeBlock_canon he ds b1 i2 hdspos i3 hdec
+            have hblock : encodeBlock e b1 = ds.map e.char := by
+              unfold encodeBlock; rw [c1]
+            constructor
+            · by_cases hrest : rest = []
+              · subst hrest
+                rw [decodeAux_nil] at hrec
+                injection hrec with hrec
+                subst hrec
+                rw [List.append_nil, encode_short e b1 (List.length_pos_iff.mp c3) c4, hblock, i1,
+                  List.append_nil]
+              · have hfull : ds.length = e.charBlockLen := by
+                  rcases i4 with i4 | i4
+                  · exact i4
+                  · exact absurd i4 hrest
+                rw [hfull, decLen_full he] at c2
+                rw [encode_append e he b1 more c2, hblock, j1, ← i1]
+            · intro c hc
+              rw [i1] at hc
+              rcases List.mem_append.mp hc with hc | hc
+              · rw [List.mem_map] at hc
+                obtain ⟨d, hd, rfl⟩ := hc
+                rw [digit?_char he d (i2 d hd)]
+                rfl
+              · exact j2 c hc
 
 theorem decode_canonical (e : Enc) (he : e.WF) (hs : e.skip = []) (s : List UInt8) (bs : Bytes) :
     decode e s = .ok bs → encode e bs = s := by
-  sorry
+  intro h
+  exact (decode_canonical_aux e he hs _ s 0 bs (Nat.lt_succ_self _) h).1
 
 theorem decode_rejects_foreign (e : Enc) (he : e.WF) (hs : e.skip = []) (s : List UInt8)
     (c : UInt8) (hc : c ∈ s) (hd : e.digit? c = none) : ∃ x, decode e s = .error x := by
-  sorry
+  cases h : decode e s with
+  | error x => exact ⟨x, rfl⟩
+  | ok bs =>
+    have := (decode_canonical_aux e he hs _ s 0 bs (Nat.lt_succ_self _) h).2 c hc
+    rw [hd] at this
+    simp at this
+
+/-! ### skipping variant -/
+
+theorem filterSkip_cons_digit (e : Enc) (c : UInt8) (cs : List UInt8) (d : Nat)
+    (h : e.digit? c = some d) : filterSkip e (c :: cs) = c :: filterSkip e cs := by
+  unfold filterSkip
+  rw [List.filter_cons, h]
+  simp
+
+theorem filterSkip_cons_skip (e : Enc) (c : UInt8) (cs : List UInt8)
+    (h : e.digit? c = none) (h' : e.isSkip c = true) : filterSkip e (c :: cs) = filterSkip e cs := by
+  unfold filterSkip
+  rw [List.filter_cons, h, h']
+  simp
+
+theorem strict_skip (e : Enc) : e.strict.skip = [] := rfl
+
+theorem strict_wf {e : Enc} (he : e.WF) : e.strict.WF :=
+  { base_gt := he.base_gt, block_pos := he.block_pos, cblock_pos := he.cblock_pos,
+    alpha_len := he.alpha_len, alpha_nodup := he.alpha_nodup, encTab_len := he.encTab_len,
+    decTab_len := he.decTab_len, validTab_len := he.validTab_len, enc_least := he.enc_least,
+    dec_greatest := he.dec_greatest, enc_full := he.enc_full, dec_full := he.dec_full,
+    valid_spec := he.valid_spec }
+
+/-- a skipping scan over alphabet/skip characters never fails, and is the strict
+    scan of the filtered input -/
+theorem scan_skip (e : Enc) :
+    ∀ (s : List UInt8) (need pos pos' : Nat),
+      (∀ c ∈ s, (e.digit? c).isSome ∨ e.isSkip c = true) →
+      ∃ ds rest, scanBlock e need s pos = .ok (ds, rest) ∧
+        scanBlock e.strict need (filterSkip e s) pos' = .ok (ds, filterSkip e rest) ∧
+        rest <:+ s ∧ (0 < need → s ≠ [] → rest.length < s.length) := by
+  intro s
+  induction s with
+  | nil =>
+    intro need pos pos' _
+    refine ⟨[], [], ?_, ?_, List.suffix_refl _, ?_⟩
+    · rw [scanBlock]
+    · show scanBlock e.strict need [] pos' = _
+      rw [scanBlock]; rfl
+    · intro _ h; exact absurd rfl h
+  | cons c cs ih =>
+    intro need pos pos' h
+    have hcs : ∀ x ∈ cs, (e.digit? x).isSome ∨ e.isSkip x = true :=
+      fun x hx => h x (List.mem_cons_of_mem _ hx)
+    cases need with
+    | zero =>
+      refine ⟨[], c :: cs, scanBlock_zero _ _ _, scanBlock_zero _ _ _, List.suffix_refl _, ?_⟩
+      intro h; omega
+    | succ n =>
+      cases hdig : e.digit? c with
+      | some d =>
+        have hdig' : e.strict.digit? c = some d := hdig
+        rw [filterSkip_cons_digit e c cs d hdig]
+        by_cases hn : n = 0
+        · subst hn
+          refine ⟨[d], cs, ?_, ?_, List.suffix_cons _ _, ?_⟩
+          · rw [scanBlock, hdig]; simp
+          · rw [scanBlock, hdig']; simp
+          · intro _ _; simp
+        · obtain ⟨ds', rest', k1, k2, k3, _⟩ := ih n (pos + 1) (pos' + 1) hcs
+          refine ⟨d :: ds', rest', ?_, ?_, k3.trans (List.suffix_cons _ _), ?_⟩
+          · rw [scanBlock, hdig]; simp only; rw [if_neg hn, k1]
+          · rw [scanBlock, hdig']; simp only; rw [if_neg hn, k2]
+          · intro _ _
+            have := k3.length_le
+            simp; omega
+      | none =>
+        have hsk : e.isSkip c = true := by
+          rcases h c (by simp) with h1 | h1
+          · rw [hdig] at h1; simp at h1
+          · exact h1
+        rw [filterSkip_cons_skip e c cs hdig hsk]
+        obtain ⟨ds', rest', k1, k2, k3, _⟩ := ih (n + 1) (pos + 1) pos' hcs
+        refine ⟨ds', rest', ?_, k2, k3.trans (List.suffix_cons _ _), ?_⟩
+        · rw [scanBlock, hdig]; simp only; rw [if_pos hsk, k1]
+        · intro _ _
+          have := k3.length_le
+          simp; omega
+
+theorem decodeAux_step_toOption (e : Enc) (fuel pos : Nat) (s : List UInt8) (ds : List Nat)
+    (rest : List UInt8) (h0 : s ≠ []) (hscan : scanBlock e e.charBlockLen s pos = .ok (ds, rest)) :
+    (decodeAux e (fuel + 1) s pos).toOption =
+      (decodeBlockDigits e ds).toOption.bind (fun bs =>
+        (decodeAux e fuel rest (pos + (s.length - rest.length))).toOption.map
+          (fun more => bs ++ more)) := by
+  rw [decodeAux_step e fuel pos s ds rest h0 hscan]
+  cases decodeBlockDigits e ds with
+  | error x => rfl
+  | ok bs =>
+    cases decodeAux e fuel rest (pos + (s.length - rest.length)) with
+    | error x => rfl
+    | ok more => rfl
+
+theorem decode_skipping_aux (e : Enc) (he : e.WF) :
+    ∀ (fuel fuel' : Nat) (s : List UInt8) (pos pos' : Nat),
+      (∀ c ∈ s, (e.digit? c).isSome ∨ e.isSkip c = true) →
+      s.length < fuel → (filterSkip e s).length < fuel' →
+      (decodeAux e fuel s pos).toOption =
+        (decodeAux e.strict fuel' (filterSkip e s) pos').toOption := by
+  intro fuel
+  induction fuel with
+  | zero => intro fuel' s pos pos' _ h; omega
+  | succ f ih =>
+    intro fuel' s pos pos' h hf hf'
+    by_cases h0 : s = []
+    · subst h0
+      show _ = (decodeAux e.strict fuel' [] pos').toOption
+      rw [decodeAux_nil, decodeAux_nil]
+    · obtain ⟨ds, rest, k1, k2, k3, k4⟩ := scan_skip e s e.charBlockLen pos pos' h
+      have hrestlen := k4 he.cblock_pos h0
+      have hrest : ∀ c ∈ rest, (e.digit? c).isSome ∨ e.isSkip c = true :=
+        fun c hc => h c (k3.mem hc)
+      rw [decodeAux_step_toOption e f pos s ds rest h0 k1]
+      by_cases hf0 : filterSkip e s = []
+      · rw [hf0] at k2 ⊢
+        rw [scanBlock] at k2
+        injection k2 with k2
+        injection k2 with k2a k2b
+        subst k2a
+        rw [decodeAux_nil, decodeBlock_nil he,
+          ih 1 rest _ 0 hrest (by omega) (by rw [← k2b]; simp), ← k2b, decodeAux_nil]
+        rfl
+      · cases fuel' with
+        | zero => omega
+        | succ f' =>
+          have hcb : e.strict.charBlockLen = e.charBlockLen := rfl
+          rw [decodeAux_step_toOption e.strict f' pos' _ ds (filterSkip e rest) hf0
+            (by rw [hcb]; exact k2)]
+          obtain ⟨i1, _, _, _, i5⟩ :=
+            scan_strict (strict_wf he) (strict_skip e) _ _ pos' ds _ k2
+          have hdsne : ds ≠ [] := i5 he.cblock_pos hf0
+          have hdspos : 0 < ds.length := List.length_pos_iff.mpr hdsne
+          have hlen : (filterSkip e s).length = ds.length + (filterSkip e rest).length := by
+            have := congrArg List.length i1
+            simpa using this
+          have hdb : decodeBlockDigits e.strict ds = decodeBlockDigits e ds := rfl
+          rw [hdb, ih f' rest _ (pos' + ((filterSkip e s).length - (filterSkip e rest).length))
+            hrest (by omega) (by omega)]
 
 theorem decode_skipping (e : Enc) (he : e.WF) (s : List UInt8)
     (h : ∀ c ∈ s, (e.digit? c).isSome ∨ e.isSkip c = true) :
     (decode e s).toOption = (decode e.strict (filterSkip e s)).toOption := by
-  sorry
+  unfold decode
+  exact decode_skipping_aux e he _ _ s 0 0 h (Nat.lt_succ_self _) (Nat.lt_succ_self _)
 
 end Saltpack.Proofs
